@@ -53,6 +53,8 @@ def candidates (al : String) (s : State) : List SeqOp :=
   (if has 'C' then [.close .send, .close .recv] else []) ++
   (if has 'c' then [.close .send] else []) ++
   (if has 'O' then obsLabels.flatMap (fun l => [SeqOp.obs l .send, SeqOp.obs l .recv]) else []) ++
+  (if has 'K' then [.obs .senderCount .recv, .obs .receiverCount .send, .obs .isClosed .send, .obs .senderCount .send,
+                    .obs .receiverCount .recv] else []) ++
   (if has 'o' then [.obs .len .recv, .obs .isFull .send, .obs .senderCount .recv, .obs .receiverCount .send,
                     .obs .isClosed .send, .obs (.isDisconnected .send) .send, .obs (.isDisconnected .recv) .recv,
                     .obs .isTerminated .recv] else [])
